@@ -6,9 +6,10 @@ Theorems about the full executable server model (`H2.Server`). What is proved: a
 code classifies as stream-scoped is answered on that stream only (one RST_STREAM, no GOAWAY, the loop goes on,
 no other stream's entry is touched); every malformed-message verdict of the header field loop is
 stream-scoped; frames still in flight for a stream the server has reset are ignored and their DATA is
-charged to the connection window. What is not: the HPACK context of a block that is *refused* or
-*abandoned at a malformed field* (known findings F22, F23 — `ctx_sync` is stated in full and refuted by a
-witness; the partial form covers blocks decoded to their end).
+charged to the connection window; a trailer section that does not end the stream is answered on its stream
+alone once its block has been decoded (F67 repaired: `trailer_not_last_*`). What is not: the HPACK context of a
+block that is *refused* or *abandoned at a malformed field* (known findings F22, F23 — `ctx_sync` is stated in
+full and refuted by a witness; the partial form covers blocks decoded to their end).
 -/
 namespace H2.Props.C09
 open H2 H2.Server
@@ -173,6 +174,72 @@ theorem ctx_sync_partial (fuel : Nat) (s : Srv) (st : Strm) (bs : Bool) (fp : Na
           rw [hx] at hok
           simp only [] at hok ⊢
           exact ih _ _ _ _ hok
+
+/-! ### a trailer section that does not end the stream (F67, repaired)
+
+A second HEADERS frame without END_STREAM on a stream whose request headers are done makes the request malformed
+(RFC 7540 8.1, 8.1.2.6). When the block ends in that frame it is decoded like any block and the answer is a stream
+error: the offence is stream-scoped (`stream_scoped_stays_scoped`, `stream_scoped_leaves_others` apply to it) and the
+decoder is where a decoder that read the whole block would be. A block that goes on in CONTINUATION frames is still a
+connection error (the stream would be gone before the rest of the block arrives: the obstacle of F23). -/
+
+/-- **trailer section without END_STREAM, block complete in the frame**: when the field loop accepts every field
+of the block, `handleHeaderFrame` answers RST_STREAM(PROTOCOL_ERROR) and the HPACK decoder has consumed the
+whole block (`decOnly`); `st0` is the stream as the loop starts on it -/
+theorem trailer_not_last_stream_scoped (s : Srv) (st : Strm) (fr : Frame.Frame) (es : Bool)
+    (prio : Option (Nat × Nat)) (frag : Bytes)
+    (hp : ∀ d w, prio = some (d, w) → d ≠ st.id)
+    (hF : st.headersFinished = true)
+    (hS : Frame.hasFlag fr.flags Gen.c_FlagEndStream = false)
+    (hH : Frame.hasFlag fr.flags Gen.c_FlagEndHeaders = true)
+    (hb : fr.body = .headers es true prio frag) :
+    ∃ st0 : Strm,
+      (fieldLoop ((st.prevHdr ++ frag).length + 1) s st0 true true 0 (st.prevHdr ++ frag)).2.2 = none →
+        (handleHeaderFrame s st fr).2.2 = some (.reset Gen.c_ProtocolError) ∧
+        decOnly ((st.prevHdr ++ frag).length + 1) s.dec true 0 (st.prevHdr ++ frag) =
+          some (handleHeaderFrame s st fr).1.dec := by
+  refine ⟨{ st with regularSeen := true, fieldSeen := false, prevHdr := [] }, ?_⟩
+  intro hx
+  have hd := ctx_sync_partial _ _ _ _ _ _ hx
+  simp only [handleHeaderFrame, hS, hH, hb, hF] at hx hd ⊢
+  simp at hx hd ⊢
+  cases prio with
+  | none => simp [hx, hd]
+  | some p =>
+    obtain ⟨d, w⟩ := p
+    have := hp d w rfl
+    simp [hx, hd, this]
+
+/-- … and it is never accepted: whatever the block holds, a trailer section without END_STREAM ends in an error -/
+theorem trailer_not_last_refused (s : Srv) (st : Strm) (fr : Frame.Frame)
+    (hF : st.headersFinished = true) (hS : Frame.hasFlag fr.flags Gen.c_FlagEndStream = false) :
+    (handleHeaderFrame s st fr).2.2 ≠ none := by
+  simp only [handleHeaderFrame, hF, hS]
+  cases Frame.hasFlag fr.flags Gen.c_FlagEndHeaders
+  · simp
+  · simp only [Bool.true_and, Bool.not_false, Bool.not_true, Bool.false_eq_true, if_false, Bool.and_false]
+    generalize fieldLoop _ _ _ _ _ _ _ = X
+    cases h : X.2.2 <;> repeat' split
+    all_goals simp_all
+
+/-- the part that is left (same obstacle as F23): the block goes on in CONTINUATION frames — connection error -/
+theorem trailer_not_last_continued (s : Srv) (st : Strm) (fr : Frame.Frame)
+    (hF : st.headersFinished = true)
+    (hS : Frame.hasFlag fr.flags Gen.c_FlagEndStream = false)
+    (hH : Frame.hasFlag fr.flags Gen.c_FlagEndHeaders = false) :
+    handleHeaderFrame s st fr = (s, st, some (.goAway Gen.c_ProtocolError "stream not open")) := by
+  simp [handleHeaderFrame, hF, hS, hH]
+
+/-- non-vacuity (the trailer frame of `known/F67.ops`, cut to `x: 1` with incremental indexing): stream error,
+and the entry is in the table -/
+example :
+    (handleHeaderFrame {} { uid := 0, id := 3, window := 0, headersFinished := true }
+      { typ := 1, flags := 4, stream := 3, length := 5, body := .headers false true none [0x40, 0x01, 0x78, 0x01, 0x31] }).2.2
+      = some (.reset Gen.c_ProtocolError) ∧
+    (handleHeaderFrame {} { uid := 0, id := 3, window := 0, headersFinished := true }
+      { typ := 1, flags := 4, stream := 3, length := 5, body := .headers false true none [0x40, 0x01, 0x78, 0x01, 0x31] }).1.dec.dyn
+      = [([0x78], [0x31])] := by
+  decide +kernel
 
 /-! non-vacuity: a well-formed GET block (all indexed) passes the loop without error -/
 example : (fieldLoop 4 {} { uid := 0, id := 1, window := 0 } true true 0 [0x82, 0x87, 0x84]).2.2 = none := by
